@@ -731,7 +731,10 @@ func clip(s string) string {
 	return s
 }
 
-var decBases = []string{"http://b.example/d/doc", "http://b.example/d/e/f.rdf", "http://other.example/", "http://b.example/d/doc?q=1", "http://b.example/d/doc#frag"}
+var decBases = []string{"http://b.example/d/doc", "http://b.example/d/e/f.rdf", "http://other.example/", "http://b.example/d/doc?q=1", "http://b.example/d/doc#frag",
+	// the CONFIGURED default base goes to the model as it is (rxd.dec <base>): boundary shapes — authority with empty path, with
+	// (empty) query, empty fragment — so that any rewriting of the default base in DecoderConfig.newDecoder shows as a disagreement
+	"http://c.example", "http://c.example", "http://c.example?v=0", "http://c.example?", "http://c.example#", "http://b.example/d/doc?", "http://b.example/d/doc#"}
 
 // variants of one tree: serialisation, mutations, truncations
 func (h *decHarness) fromTree(r *vh.Rng, origin string, tree *Node, base string, out *[]*decCase, mutants, truncs int) {
@@ -741,7 +744,7 @@ func (h *decHarness) fromTree(r *vh.Rng, origin string, tree *Node, base string,
 		if r.Chance(6) {
 			c.base = nil
 			c.origin += "/nobase"
-		} else if r.Chance(4) {
+		} else if r.Chance(8) {
 			nb := vh.Pick(r, decBases)
 			c.base = &nb
 		}
@@ -812,6 +815,11 @@ func mainDec() {
 	h := &decHarness{rep: rep}
 	d := vh.Driver{Path: *driver}
 	root := vh.NewRng(seed)
+	if fs, err := vh.LoadFindings(*findings); err == nil {
+		for c := range vh.KnownKeys(fs, "C12") {
+			c12KnownClasses[c] = true // the planner stays outside the known classes of C12 (c12classes.go); what is left is filtered by resolverAgrees
+		}
+	}
 
 	if *replay != "" || *hints != "" {
 		var cases []*decCase
